@@ -56,8 +56,9 @@ EXTS = [".py", ".ts", ".tsx", ".js", ".jsx", ".rs", ".PY", ".Ts", ".RS", ".java"
 LANG_OF = {"py": ".py", "ts": ".ts", "js": ".js", "rs": ".rs"}
 
 
-class _Timeout(Exception):
-    pass
+class _Timeout(BaseException):
+    """Raised by the harness's own alarm. A BaseException, so that the tool's `except Exception` around each rule cannot
+    swallow it and turn the harness's impatience into a 'failed rule' record."""
 
 
 def _alarm(signum, frame):
@@ -399,6 +400,8 @@ def check(case) -> Case:
             anomalous = True
             failures.append(Failure(f"escaped|{exc.split(':')[0]}@{exc.rsplit('@', 1)[1].strip()}", {**detail, "exception": exc}))
         for rec in sw:
+            if rec["exc_type"] == "_Timeout":
+                continue  # the harness's own alarm, not a failure of the rule
             anomalous = True
             failures.append(Failure(sw_failure_sig(rec, lang_label if case["kind"] == "blowup" else ext or "none"), {**detail, "record": rec}))
         if not exc:
@@ -474,8 +477,10 @@ def blowups(max_n):
     def s(draw):
         blow = draw(st.sampled_from(BLOWUPS))
         n = draw(st.sampled_from(sizes))
-        if blow in ("parens", "brackets", "unary", "blocks", "elif", "functions") and n > 5000:
+        if blow in ("parens", "brackets", "unary", "blocks", "elif") and n > 5000:
             n = 5000
+        if blow == "functions" and n > 2000:
+            n = 2000  # 5,000 functions take 35-80 s per command (super-linear but terminating): too close to the time limits
         if blow not in ("longline", "comment") and n > 20000:
             n = 20000
         lang = draw(st.sampled_from(["py", "ts", "js", "rs"]))
